@@ -137,6 +137,18 @@ let cls k c l =
   | 2 -> "P" ^ string_of_z c
   | _ -> "FUEL"
 
+(* chunks of the async run: the schedule's sizes (at least 1 byte each, at most what is left), then the rest as one chunk *)
+let async_chunks (total : int) (sched : int list) : int list =
+  let rec go left sch acc =
+    if left <= 0 then List.rev acc
+    else match sch with
+      | [] -> List.rev (left :: acc)
+      | c :: t -> let n = min (max 1 c) left in go (left - n) t (n :: acc)
+  in
+  go total sched []
+
+let with_async = Array.length Sys.argv > 1 && Sys.argv.(1) = "async"
+
 let () =
   try
     while true do
@@ -155,10 +167,20 @@ let () =
         let ek = match first_rest zlines ztail zs with
           | Some l -> kind_of (List.map (fun (b, c) -> (int_of_z b, int_of_z c)) l)
           | None -> "-" in
-        Printf.printf "R=%s;cb=%s,%s;nr=%s;ms=%s;ev=%s,%s;T=%s;;cap=%s;dropped=%s;S=%s;ST=%s;X=%s,%s,%s,%s,%s,%s;K=%s;EK=%s\n"
+        let async_part =
+          if not with_async then "" else begin
+            let total = List.fold_left (fun a l -> a + 1 + List.fold_left (fun a (_, c) -> a + c) 0 l) tail_len lines in
+            let chunks = async_chunks total (List.map int_of_z zs) in
+            let (ao, atr) = run_async zlines ztail (List.map z_of_int chunks) in
+            Printf.sprintf ";A=%s;acb=%s,%s;aev=%s,%s;AT=%s"
+              (cls (o_kind ao) (o_code ao) (o_line ao)) (string_of_z (o_cb ao)) (string_of_z (o_ncb ao))
+              (string_of_z (tr_hash atr)) (string_of_z (tr_events atr))
+              (match o_table ao with Some t -> render_table t | None -> "-")
+          end in
+        Printf.printf "R=%s;cb=%s,%s;nr=%s;ms=%s;ev=%s,%s;T=%s%s;;cap=%s;dropped=%s;S=%s;ST=%s;X=%s,%s,%s,%s,%s,%s;K=%s;EK=%s\n"
           (cls (o_kind o) (o_code o) (o_line o))
           (string_of_z (o_cb o)) (string_of_z (o_ncb o)) (string_of_z (o_nrd o)) (string_of_z (o_maxsp o))
-          (string_of_z (tr_hash tr)) (string_of_z (tr_events tr)) t
+          (string_of_z (tr_hash tr)) (string_of_z (tr_events tr)) t async_part
           (string_of_z (o_cap o)) (string_of_z (o_dropped o))
           (cls (o_skind o) (o_scode o) (o_sline o)) st
           (string_of_z (tr_grows tr)) (string_of_z (tr_shifts tr)) (string_of_z (tr_discards tr))
